@@ -118,3 +118,13 @@ void misc(File &f, Block &b, Section &s, Source &src, DataArray &da, Tag &t, Mul
 
 } // namespace verif_witness
 } // namespace nix
+
+// element-type codec: make the compile-time rows of to_data_type<T> visible for every arithmetic type
+namespace nix { namespace verif_witness {
+static const DataType dt_rows[] = {
+    to_data_type<bool>::value, to_data_type<float>::value, to_data_type<double>::value,
+    to_data_type<int8_t>::value, to_data_type<int16_t>::value, to_data_type<int32_t>::value, to_data_type<int64_t>::value,
+    to_data_type<uint8_t>::value, to_data_type<uint16_t>::value, to_data_type<uint32_t>::value, to_data_type<uint64_t>::value,
+    to_data_type<long long>::value, to_data_type<unsigned long long>::value, to_data_type<std::string>::value
+};
+} }
